@@ -279,6 +279,12 @@ func vfC05Scenarios(thorough bool) []*vfGWScenario {
 		mk(router+"-retry-full", router, 1, nil, []string{"conn:a", "conn:b", "join:t", "gate:a", "join:u", "leave:u"},
 			[]string{"ungate:a", "join:t", "leave:t", "relay:t", "unrelay:t", "join:u", "leave:u", "adv:1100", "adv:400"})
 		out[len(out)-1].DevKinds, out[len(out)-1].DevMax = []string{"jitter"}, 1
+		// a congested link with a queue of two: writes get through one at a time (letone), so a retried
+		// announcement can land while its opposite is still waiting in the queue
+		mk(router+"-retry-congested", router, 2, nil, []string{"conn:a", "conn:b", "join:t", "gate:a", "join:u", "leave:u"},
+			[]string{"letone:a", "ungate:a", "join:t", "leave:t", "join:u", "leave:u", "adv:1100", "adv:400"})
+		out[len(out)-1].DevKinds, out[len(out)-1].DevMax = []string{"jitter"}, 1
+		out[len(out)-1].Depth = d + 1
 	}
 	// a stream goroutine descheduled between two hand-offs to the event loop (named yield points, one hold at a time)
 	for _, router := range []string{"flood", "gossip"} {
